@@ -19,11 +19,27 @@ KANI_CORE_CONT = ('core/src/serializer.rs', 'kani/core/containers_harness.rs')
 KANI_CORE_CONV = ('core/src/convert_value.rs', 'kani/core/convert_harness.rs')
 KANI_CORE_BUS = ('core/src/bus_listener.rs', 'kani/core/bus_listener_harness.rs')
 KANI_CORE_MSG = ('core/src/message.rs', 'kani/core/message_harness.rs')
+KANI_CORE_PKT = ('core/src/message/packetizer.rs', 'kani/core/packetizer_harness.rs')
 KANI_BROKER_ACC = ('broker/src/acceptor.rs', 'kani/broker/acceptor_harness.rs')
 TB_STUB = ['kani::stub of bytes::BytesMut::reserve_inner by a function that asserts false: sound (reachability of the '
            'real function is a proof obligation), used to keep the re-allocation path out of the formula']
 
 PROPS = {
+    'C14': dict(
+        level='other',
+        kani=[dict(package='aldrin-core', injections=[KANI_CORE_PKT], jobs=5)],
+        trusted_base=TB_KANI + ['bytes crate verified as compiled (no stubs in these harnesses)'],
+        assumptions=['all obligations are BOUNDED: a two-frame stream of 5+6 bytes with symbolic contents, every split point '
+                     'through extend_from_slice, one split point through spare_capacity_mut/bytes_written; one 6-byte frame fed '
+                     'byte by byte; a short length prefix'],
+        undecided_clauses=[
+            'arbitrary message sequences and sizes (beyond the 64 KiB reserve step), more than two pieces',
+            'the stream transports TokioTransport / Buffered (Pin-projected poll functions over async I/O objects)',
+        ],
+        explanation='bounded contract harnesses on the real Packetizer: frames out = frames in, in order, each only once '
+                    'it is complete, nothing lost or duplicated, for every split point of a two-frame stream through both '
+                    'input interfaces. Level `other`: every deciding obligation is bounded, nothing is counted as proved.',
+    ),
     'C08': dict(
         level='proof',
         verus_units=['core_messages'],
